@@ -5,7 +5,7 @@
 //!                               Compound-vs-Compound history through `DefaultQueryDispatcher::contact_manifolds`
 //!                               (→ `contact_manifolds_composite_shape_composite_shape`), manifolds + workspace reused;
 //!                               observed: the part boxes, and per call `flipped`, the outer query box, the visited outer leaves
-//!                               with their inner query boxes and visited inner leaves
+//!                               with their inner query boxes and visited inner leaves, and the manifolds of a FRESH computation at that pose
 //!   pfm3 kind a b pred nposes pose*   pose history of a pfm/pfm pair whose support features are EDGES (capsule / cylinder /
 //!                               cone / segment sides): one-shot reference ;; manifold after every call (oracle only)
 use super::*;
@@ -61,6 +61,13 @@ fn cc3(a: &mut Args) -> String {
             let inner = leaves_of(ci.qbvh(), &bx);
             obs += &format!("{} {} {} {} ", l1, d3::fp(&bx.mins), d3::fp(&bx.maxs), inner.len());
             for l2 in &inner { obs += &format!("{} ", l2); }
+        }
+        // the reference of the property: a FRESH computation at this pose (new manifold vector, no workspace)
+        {
+            let mut fm: Vec<M3> = Vec::new(); let mut fws = None;
+            if DefaultQueryDispatcher.contact_manifolds(p, c1, c2, pred, &mut fm, &mut fws).is_err() { return "unsupported".into(); }
+            obs += &format!("{} ", fm.len());
+            for m in &fm { obs += &format!("{} {} {} ", m.subshape1, m.subshape2, fman3(m)); }
         }
         let r = DefaultQueryDispatcher.contact_manifolds(p, c1, c2, pred, &mut manifolds, &mut ws);
         if r.is_err() { return "unsupported".into(); }
